@@ -6,6 +6,11 @@
 //!   Reset {names: n, seqtok: [..]}   the sequential reference: token id of file id i (0 = Err)
 //!   Par   {iface, arch, t, b, skip, run, req:[file ids, 0 = a name in no archive],
 //!          call: ok|err|panic|hang, names:[returned name ids, -1 = foreign], toks:[token ids, 0 = Err]}
+//!         set: which setters of ParallelConfig the caller invoked (t / b / s; "none" = ParallelConfig::default())
+//!
+//! The multi-archive helpers of parallel.rs (arch "W": pool of 12 archives, 0..24 of them per call): a slot is one
+//! (archive, per-archive function) pair; the sequential reference of `search` / `process` is the same function applied
+//! to one archive after the other on one thread (pseudo names "?search:<pattern>", "?proc:<class>" in the id table).
 use std::collections::HashMap;
 use std::path::{Path, PathBuf};
 use std::sync::atomic::{AtomicBool, AtomicU64, Ordering};
@@ -133,11 +138,29 @@ fn build_generation(path: &Path, g: usize, seed: u64) -> Vec<String> {
 
 const GENERATIONS: usize = 3;
 
+/// pool of the multi-archive helpers: M0..M11 (M5 lacks the shared file)
+const MULTI_POOL: usize = 12;
+const LACKING: usize = 5;
+/// pattern classes of search_in_multiple_archives: every file | one file per archive | a file of ONE archive only
+const SEARCH_PAT: [&str; 3] = ["txt", "unique_", "unique_3."];
+/// the per-archive function given to process_archives_parallel, by class: read the shared file (fails where it is
+/// lacking) | the listing | the number of files (equal for most archives)
+fn proc_class(class: usize, a: &mut Archive) -> wow_mpq::Result<Vec<u8>> {
+    match class {
+        1 => a.read_file("common.txt"),
+        2 => Ok(a.list()?.into_iter().map(|e| e.name).collect::<Vec<_>>().join("\n").into_bytes()),
+        _ => Ok(format!("{} files", a.list()?.len()).into_bytes()),
+    }
+}
+fn search_seq(a: &mut Archive, pat: &str) -> wow_mpq::Result<Vec<String>> {
+    Ok(a.list()?.into_iter().filter(|e| e.name.contains(pat)).map(|e| e.name).collect())
+}
+
 fn build_world(dir: &Path, seed: u64, intern: &mut Interner) -> WorldX {
     let mut arch = HashMap::new();
     let mut ids = HashMap::new();
     let mut seqtok: Vec<u32> = Vec::new();
-    let mut seq_read = |path: &Path, key: &str, files: &[String], ids: &mut HashMap<(String, String), usize>, seqtok: &mut Vec<u32>| {
+    let seq_read = |intern: &mut Interner, path: &Path, key: &str, files: &[String], ids: &mut HashMap<(String, String), usize>, seqtok: &mut Vec<u32>| {
         // THE sequential reference: one plain handle, one read_file after the other -- under the EXACT string that
         // will be requested: every spelling of a name is a request of its own with its own sequential answer
         let mut a = Archive::open(path).unwrap_or_else(|e| tool_error(&format!("open {key}: {e}")));
@@ -162,9 +185,9 @@ fn build_world(dir: &Path, seed: u64, intern: &mut Interner) -> WorldX {
         let path = dir.join(format!("{key}.mpq"));
         let (files, unlisted) = build_archive(&path, key, seed);
         let base = seqtok.len() + 1;
-        seq_read(&path, key, &files, &mut ids, &mut seqtok);
-        seq_read(&path, key, &unlisted, &mut ids, &mut seqtok);
-        seq_read(&path, key, &["(listfile)".to_string()], &mut ids, &mut seqtok); // (in N: a name the archive lacks)
+        seq_read(intern, &path, key, &files, &mut ids, &mut seqtok);
+        seq_read(intern, &path, key, &unlisted, &mut ids, &mut seqtok);
+        seq_read(intern, &path, key, &["(listfile)".to_string()], &mut ids, &mut seqtok); // (in N: a name the archive lacks)
         arch.insert(key.to_string(), Arch { path, files, unlisted, base });
     }
     // the generations of G: each is written to THE path, read sequentially there (the reference), then replaced
@@ -173,23 +196,43 @@ fn build_world(dir: &Path, seed: u64, intern: &mut Interner) -> WorldX {
         let files = build_generation(&gpath, g, seed);
         let key = format!("G{g}");
         let base = seqtok.len() + 1;
-        seq_read(&gpath, &key, &files, &mut ids, &mut seqtok);
-        seq_read(&gpath, &key, &["(listfile)".to_string()], &mut ids, &mut seqtok);
+        seq_read(intern, &gpath, &key, &files, &mut ids, &mut seqtok);
+        seq_read(intern, &gpath, &key, &["(listfile)".to_string()], &mut ids, &mut seqtok);
         arch.insert(key, Arch { path: gpath.clone(), files, unlisted: Vec::new(), base });
     }
     let mut multi = Vec::new();
-    for i in 0..6 {
+    for i in 0..MULTI_POOL {
         let path = dir.join(format!("M{i}.mpq"));
         let key = format!("M{i}");
         let mut b = ArchiveBuilder::new().add_file_data(format!("only in {i}").into_bytes(), &format!("unique_{i}.txt"));
         let mut files = vec![format!("unique_{i}.txt")];
-        if i != 5 {
+        if i != LACKING {
             let mut rng = Rng::derive(seed, &format!("c09-M-{i}"));
             b = b.add_file_data(rng.bytes(100 + 50 * i), "common.txt");
             files.push("common.txt".to_string());
         }
         b.build(&path).unwrap_or_else(|e| tool_error(&format!("building {key}: {e}")));
-        seq_read(&path, &key, &files, &mut ids, &mut seqtok);
+        seq_read(intern, &path, &key, &files, &mut ids, &mut seqtok);
+        // the sequential reference of the per-archive functions: one handle, one call after the other
+        {
+            let mut a = Archive::open(&path).unwrap_or_else(|e| tool_error(&format!("open {key}: {e}")));
+            for pat in SEARCH_PAT {
+                let t = match guarded(|| search_seq(&mut a, pat)) {
+                    Outcome::Done(Ok(v)) => intern.id(v.join("\n").as_bytes()),
+                    _ => 0,
+                };
+                seqtok.push(t);
+                ids.insert((key.clone(), format!("?search:{pat}")), seqtok.len());
+            }
+            for class in 1..=3usize {
+                let t = match guarded(|| proc_class(class, &mut a)) {
+                    Outcome::Done(Ok(d)) => intern.id(&d),
+                    _ => 0,
+                };
+                seqtok.push(t);
+                ids.insert((key.clone(), format!("?proc:{class}")), seqtok.len());
+            }
+        }
         let cid = ids.get(&(key.clone(), "common.txt".to_string())).copied();
         multi.push((path, cid));
     }
@@ -338,7 +381,18 @@ fn run_once(w: &WorldX, c: &Value, key: &str, names: &[String], intern: &std::sy
     let out = guarded(|| -> Result<(Vec<i64>, Vec<u32>), String> {
         match iface.as_str() {
             "with_config" => {
-                let cfg = ParallelConfig::new().threads(t).batch_size(b).skip_errors(skip);
+                // only the setters the case names are invoked: everything else stays at ParallelConfig's defaults
+                let set = c.get("set").and_then(|x| x.as_str()).unwrap_or("tbs");
+                let mut cfg = if set == "none" { ParallelConfig::default() } else { ParallelConfig::new() };
+                if set.contains('t') {
+                    cfg = cfg.threads(t);
+                }
+                if set.contains('b') {
+                    cfg = cfg.batch_size(b);
+                }
+                if set.contains('s') {
+                    cfg = cfg.skip_errors(skip);
+                }
                 let r = extract_with_config(&w.arch[&key].path, &refs, cfg).map_err(|e| variant_name(&e))?;
                 Ok((r.iter().map(|(n, _)| name_id(w, &key, n)).collect(),
                     r.iter().map(|(_, d)| d.as_ref().map(|d| tokid(d)).unwrap_or(0)).collect()))
@@ -356,6 +410,36 @@ fn run_once(w: &WorldX, c: &Value, key: &str, names: &[String], intern: &std::sy
                 })
                 .map_err(|e| variant_name(&e))?;
                 Ok((r.iter().map(|(n, _)| name_id(w, &key, n)).collect(), r.iter().map(|(_, t)| *t).collect()))
+            }
+            "multi_search" | "multi_process" => {
+                // names = archive paths, "|", pattern / processor class
+                let cut = names.iter().position(|s| s == "|").unwrap_or(names.len());
+                let paths: Vec<PathBuf> = names[..cut].iter().map(PathBuf::from).collect();
+                let arg = names.get(cut + 1).cloned().unwrap_or_default();
+                let id_of = |p: &Path, f: &str| -> i64 {
+                    match w.multi.iter().position(|(q, _)| q == p) {
+                        Some(k) => w.ids.get(&(format!("M{k}"), f.to_string())).map(|&x| x as i64).unwrap_or(0),
+                        None => -1,
+                    }
+                };
+                if iface == "multi_search" {
+                    let r = in_pool(t, || wow_mpq::parallel::search_in_multiple_archives(&paths, &arg)).map_err(|e| variant_name(&e))?;
+                    let f = format!("?search:{arg}");
+                    Ok((r.iter().map(|(p, _)| id_of(p, &f)).collect(), r.iter().map(|(_, v)| tokid(v.join("\n").as_bytes())).collect()))
+                } else {
+                    let class: usize = arg.parse().unwrap_or(1);
+                    // the processor reports the archive it was given (its path) next to its result
+                    let r: Vec<(PathBuf, u32)> = in_pool(t, || {
+                        wow_mpq::parallel::process_archives_parallel(&paths, |mut a| {
+                            let p = a.path().to_path_buf();
+                            let d = proc_class(class, &mut a)?;
+                            Ok((p, tokid(&d)))
+                        })
+                    })
+                    .map_err(|e| variant_name(&e))?;
+                    let f = format!("?proc:{class}");
+                    Ok((r.iter().map(|(p, _)| id_of(p, &f)).collect(), r.iter().map(|(_, t)| *t).collect()))
+                }
             }
             "multi" | "multi_many" => {
                 // names = archive paths, "|", file names
@@ -472,6 +556,56 @@ fn main() {
             let case = format!("{ci}:{iface}:{}", gs(c, "arch"));
             let mut rng = Rng::derive(seed, &format!("c09-case-{ci}"));
             let (names, ids): (Vec<String>, Vec<usize>) = match iface {
+                "multi" | "multi_many" | "multi_search" | "multi_process" if gs(c, "arch") == "W" => {
+                    // the ARCHIVE COUNT as a dimension: n archives of the pool (all but the one lacking the shared file) in seeded
+                    // order, cyclic beyond the pool; dup = "adj": the same archive twice; miss: at that position an archive the
+                    // per-archive function fails on (lacks the shared file), or, where the function does not need the file, a
+                    // path that does not exist.  b = class of the per-archive function.
+                    let n = gi(c, "n") as usize;
+                    let b = (gi(c, "b") as usize).max(1);
+                    let mut order: Vec<usize> = (0..MULTI_POOL).filter(|&i| i != LACKING).collect();
+                    for i in (1..order.len()).rev() {
+                        order.swap(i, rng.below(i as u64 + 1) as usize);
+                    }
+                    let mut sel: Vec<usize> = (0..n).map(|i| order[i % order.len()]).collect();
+                    if gs(c, "dup") == "adj" && n >= 2 {
+                        sel[1] = sel[0];
+                    }
+                    let pos = match gs(c, "miss") {
+                        "first" => Some(0),
+                        "middle" => Some(n / 2),
+                        "last" => Some(n.saturating_sub(1)),
+                        _ => None,
+                    };
+                    let needs_file = matches!(iface, "multi" | "multi_many") || (iface == "multi_process" && b == 1);
+                    if let (Some(p), true) = (pos, n > 0) {
+                        sel[p] = if needs_file { LACKING } else { usize::MAX };
+                    }
+                    let fargs: Vec<String> = match iface {
+                        "multi" => vec!["common.txt".to_string()],
+                        "multi_many" => (0..b).map(|i| spell("common.txt", SPELLINGS[i % 5])).collect(),
+                        "multi_search" => vec![SEARCH_PAT[(b - 1) % 3].to_string()],
+                        _ => vec![b.to_string()],
+                    };
+                    let keys: Vec<String> = match iface {
+                        "multi" | "multi_many" => fargs.clone(),
+                        "multi_search" => vec![format!("?search:{}", fargs[0])],
+                        _ => vec![format!("?proc:{b}")],
+                    };
+                    let mut names: Vec<String> = sel
+                        .iter()
+                        .map(|&i| if i == usize::MAX { scratch.path.join("no-such-archive.mpq") } else { w.multi[i].0.clone() }.to_string_lossy().to_string())
+                        .collect();
+                    names.push("|".to_string());
+                    names.extend(fargs.iter().cloned());
+                    let mut ids = Vec::new();
+                    for &k in &sel {
+                        for f in &keys {
+                            ids.push(if k == usize::MAX { 0 } else { w.ids.get(&(format!("M{k}"), f.clone())).copied().unwrap_or(0) });
+                        }
+                    }
+                    (names, ids)
+                }
                 "multi" | "multi_many" => {
                     // n archives of M0..M4 in seeded order (dup = "adj": the same archive twice; miss: M5, which lacks
                     // the shared file, at that position); file names: the shared file under the spelling class
@@ -584,7 +718,7 @@ fn main() {
                     Err(_) => Obs { call: "hang".into(), names: vec![], toks: vec![] },
                 };
                 trace.ev(json!({"ev":"Par","case":case,"iface":iface,"arch":gs(c,"arch"),"t":gi(c,"t"),"b":gi(c,"b"),
-                    "n":gi(c,"n"),"skip":gb(c,"skip"),"miss":gs(c,"miss"),"dup":gs(c,"dup"),"spell":c.get("spell").and_then(|x| x.as_str()).unwrap_or("listed"),"run":run,"gen":0,
+                    "n":gi(c,"n"),"skip":gb(c,"skip"),"miss":gs(c,"miss"),"dup":gs(c,"dup"),"spell":c.get("spell").and_then(|x| x.as_str()).unwrap_or("listed"),"set":c.get("set").and_then(|x| x.as_str()).unwrap_or("tbs"),"run":run,"gen":0,
                     "req":chunked(&ids),"call":o.call,"names":chunked(&o.names),"toks":chunked(&o.toks)}));
                 since += 1;
                 if o.call == "hang" {
@@ -623,7 +757,7 @@ fn main() {
                             _ => Obs { call: "panic".into(), names: vec![], toks: vec![] },
                         };
                         trace.ev(json!({"ev":"Par","case":case,"iface":iface,"arch":"G","t":gi(c,"t"),"b":gi(c,"b"),
-                            "n":gi(c,"n"),"skip":gb(c,"skip"),"miss":gs(c,"miss"),"dup":gs(c,"dup"),"spell":"listed","run":run,"gen":round,
+                            "n":gi(c,"n"),"skip":gb(c,"skip"),"miss":gs(c,"miss"),"dup":gs(c,"dup"),"spell":"listed","set":"tbs","run":run,"gen":round,
                             "req":chunked(&ids),"call":o.call,"names":chunked(&o.names),"toks":chunked(&o.toks)}));
                     }
                 }
